@@ -26,7 +26,7 @@ pub struct BatchOut {
 
 /// Run `n` plans produced by `plan_of(i)` on `workers` threads. If `deadline` passes, no
 /// new plan is started; the number actually run is `digests.len()` (a contiguous prefix).
-pub fn run_batch<F: Fn(usize) -> IoPlan + Sync>(n: usize, workers: usize, deadline: Option<Instant>, plan_of: F) -> BatchOut {
+pub fn run_batch<F: Fn(usize) -> IoPlan + Sync>(n: usize, workers: usize, deadline: Option<Instant>, known: &[String], plan_of: F) -> BatchOut {
     let next = AtomicUsize::new(0);
     let stop = AtomicBool::new(false);
     struct Acc {
@@ -94,6 +94,11 @@ pub fn run_batch<F: Fn(usize) -> IoPlan + Sync>(n: usize, workers: usize, deadli
                         local.nontrivial.push(h);
                     }
                     if let Some(v) = r.violation {
+                        if known.iter().any(|k| *k == v.class()) {
+                            // a listed known finding: counted, reported by the driver, not a new violation
+                            local.counters.inc(&format!("known_finding_hit|{}", v.class()));
+                            continue;
+                        }
                         local.violations += 1;
                         if local.first.as_ref().map(|f| i < f.0).unwrap_or(true) {
                             local.first = Some((i, plan, v));
@@ -321,6 +326,7 @@ pub fn replay_file(path: &str) -> Result<(Option<Violation>, String, Vec<String>
                 v.get("type").and_then(|x| x.as_str()).unwrap_or(""),
                 v.get("compressed").and_then(|x| x.as_bool()).unwrap_or(false)
             )
+            .replace(' ', "_")
         })
         .unwrap_or_default();
     let r = execute(&plan, true);
